@@ -2013,7 +2013,7 @@ class Frame(object):
                 if r is not None:
                     return r
                 return Sym('%s(%s)' % (n, self._argtext(args, kwargs)))
-            if isinstance(callee, ClassV) and n not in self.fi.params:
+            if isinstance(callee, ClassV) and (n not in self.fi.params or self.sc.canonical_objs):
                 # a local (not a parameter such as `cls`) bound to a class (k = A if c else B; k()): the call constructs that class
                 record(callee.ci.name)
                 return self._construct(callee.ci, args, kwargs, st, node)
